@@ -218,31 +218,32 @@ func cheapTink(r *hx.Rng, b *base, id uint32) []string {
 // keyVerifierPrefixCases: the verifier of a TINK key used directly must insist on the 5-byte output
 // prefix itself: the bare FIPS 205 signature, the signature behind another id / the CRUNCHY start byte /
 // a flipped prefix bit, and a doubled prefix are rejected (all without running SLH-DSA verification on a
-// correct implementation); a NO_PREFIX key rejects the prefixed signature.
-func keyVerifierPrefixCases(r *hx.Rng, b *base, id uint32, valid bool) []string {
+// correct implementation); a NO_PREFIX key rejects the prefixed signature; the
+// genuine prefixed signature (and the bare one under the NO_PREFIX key) is accepted.
+func keyVerifierPrefixCases(r *hx.Rng, b *base, sig0 []byte, id uint32) []string {
 	p := b.p
 	pre := []byte{1, byte(id >> 24), byte(id >> 16), byte(id >> 8), byte(id)}
-	good := append(append([]byte{}, pre...), b.sig...)
+	good := append(append([]byte{}, pre...), sig0...)
 	tk := func(v string, sig []byte, tag string) string {
 		return fmt.Sprintf("C16|tk|%s|%s|%d|%s|%s|%s|%s", p.name, v, id, hx.H(b.pk), hx.H(b.msg), hx.H(sig), tag)
 	}
-	other := append([]byte{1, byte(id >> 24), byte(id >> 16), byte(id >> 8), byte(id) ^ 1}, b.sig...)
-	crunchy := append([]byte{0, byte(id >> 24), byte(id >> 16), byte(id >> 8), byte(id)}, b.sig...)
+	other := append([]byte{1, byte(id >> 24), byte(id >> 16), byte(id >> 8), byte(id) ^ 1}, sig0...)
+	crunchy := append([]byte{0, byte(id >> 24), byte(id >> 16), byte(id >> 8), byte(id)}, sig0...)
 	flip := append([]byte{}, good...)
 	flip[r.Intn(5)] ^= byte(1 << r.Intn(8))
-	out := []string{
-		tk("T", b.sig, "-bare-signature-on-tink-key"),
+	return []string{
+		tk("T", good, "+valid"),
+		tk("N", sig0, "+valid-raw"),
+		tk("T", sig0, "-bare-signature-on-tink-key"),
 		tk("T", other, "-other-id"),
 		tk("T", crunchy, "-crunchy-start-byte"),
 		tk("T", flip, "-prefix-flip"),
 		tk("T", append(append([]byte{}, pre...), good...), "-doubled-prefix"),
-		tk("T", b.sig[5:], "-bare-signature-cut-by-5"),
+		tk("T", sig0[5:], "-bare-signature-cut-by-5"),
 		tk("N", good, "-prefix-on-raw-key"),
 		tk("T", good[:5], "-only-prefix"),
 		tk("T", nil, "-empty"),
 	}
-	_ = valid // acceptance through the key's verifier is what every ts / tv case exercises (the keyset wrapper calls it)
-	return out
 }
 
 func kgLine(r *hx.Rng, p *pset, tag string) string {
@@ -296,7 +297,19 @@ func gen(r *hx.Rng, n int, tier string) []string {
 		ct := cheapTink(r, b, uint32(r.U64()))
 		out = append(out, ct[r.Intn(len(ct))], ct[8+r.Intn(len(ct)-8)])
 		// the key's own verifier (no keyset wrapper in front of it): the whole prefix family, every set
-		out = append(out, keyVerifierPrefixCases(r, b, uint32(r.U64()), spend(p.cVf))...)
+		// (built from a genuine signature over the EMPTY context, the one the Tink verifier passes on: the
+		// base signature when the base context is empty, a fresh one for the fast sets otherwise; a slow set
+		// whose base context is not empty sits out this run - fourth audit E1)
+		sig0 := b.sig
+		if len(b.ctx) != 0 {
+			sig0 = nil
+			if p.fast {
+				sig0 = signTinkMsg(b)
+			}
+		}
+		if sig0 != nil {
+			out = append(out, keyVerifierPrefixCases(r, b, sig0, uint32(r.U64()))...)
+		}
 		if spend(p.cVf) {
 			out = append(out, vfLine(b, b.pk, b.msg, b.ctx, b.sig, "+valid"))
 		}
